@@ -193,6 +193,29 @@ CAPTURE = [
     _cap("is_operator", ["k = Kc(1)"], ["j = k", "return j is k"], "bool"),
     _cap("unpack_source", ["const l = [1, 2]"], ["[a, b] = l", "return a + b"], "int"),
     _cap("typeof_operand", ["v = 5"], ["return typeof v"], "str"),
+    # the only mention sits in a nested block / in a particular arm of a ladder / next to a same-named local
+    _cap("same_named_local_initialised_from_it", ["v = 5"], ["v = v + 1", "return v"], "int"),
+    _cap("read_then_same_named_local", ["v = 5"], ["seen = v", "v = seen + 1", "return v"], "int"),
+    _cap("same_named_typed_local_initialised_from_it", ["v = 5"], ["v: int = v * 2", "return v"], "int"),
+    _cap("then_branch", ["v = 5", "c = true"], ["if c {", "  return v", "}", "return 0"], "int"),
+    _cap("else_branch", ["v = 5", "c = false"], ["if c {", "  return 0", "} else {", "  return v", "}"], "int"),
+    _cap("else_if_condition", ["v = 5", "c = false"], ["if c {", "  return 0", "} else if v > 1 {", "  return 1", "}", "return 2"], "int"),
+    _cap("else_if_branch", ["v = 5", "c = false"], ["if c {", "  return 0", "} else if !c {", "  return v", "}", "return 2"], "int"),
+    _cap("final_else_after_else_if", ["v = 5", "c = false"], ["if c {", "  return 0", "} else if c {", "  return 1", "} else {", "  return v", "}"], "int"),
+    _cap("final_else_after_two_else_ifs_opassign", ["v = 5", "c = false"], ["if c {", "  return 0", "} else if c {", "  return 1", "} else if c {", "  return 2", "} else {", "  v += 1", "}", "return v"], "int"),
+    _cap("while_body", ["v = 5"], ["t = 0", "while t < 1 {", "  t += v", "}", "return t"], "int"),
+    _cap("from_body", ["v = 5"], ["t = 0", "from 0 to 2 {", "  t += v", "}", "return t"], "int"),
+    _cap("from_lower_bound", ["v = 1"], ["t = 0", "from v to 3 {", "  t += 1", "}", "return t"], "int"),
+    _cap("nested_blocks_depth3", ["v = 5", "c = true"], ["t = 0", "while t < 1 {", "  if c {", "    from 0 to 1 {", "      t += v", "    }", "  }", "}", "return t"], "int"),
+    _cap("index_expression", ["v = 1", "l: [int...] = [4, 5]"], ["q: [int...] = [7, 8]", "r = q[v]", "return r"], "int"),
+    _cap("index_assign_index", ["v = 1"], ["q: [int...] = [7, 8]", "q[v] = 3", "r = q[1]", "return r"], "int"),
+    _cap("index_opassign_value", ["v = 5"], ["q: [int...] = [7, 8]", "q[0] += v", "r = q[0]", "return r"], "int"),
+    _cap("map_key", ["v = \"a\""], ["q = map[str, int] { \"a\": 1 }", "r = (q[v]) or 0", "return r"], "int"),
+    _cap("recursion_argument", ["v = 2"], ["h = fn(n: int) -> int {", "  if n <= 0 {", "    return 0", "  }", "  return self(n - v) + 1", "}", "return h(4)"], "int"),
+    _cap("nested_closure_in_else", ["v = 5", "c = false"], ["if c {", "  return 0", "} else {", "  h = fn() -> int {", "    return v", "  }", "  return h()", "}"], "int"),
+    _cap("return_in_while_in_if", ["v = 5", "c = true"], ["if c {", "  while c {", "    return v", "  }", "}", "return 0"], "int"),
+    _cap("callback_of_map", ["v = 10", "l: [int...] = [1, 2, 3]"], ["r = l.map(fn(a: int) -> int {", "  return a * v", "})", "return r[2]"], "int"),
+    _cap("callback_of_filter", ["v = 2", "l: [int...] = [1, 2, 3]"], ["r = l.filter(fn(a: int) -> bool {", "  return a >= v", "})", "return r.len()"], "int"),
 ]
 CATALOGUE += [(n, (_KCLS + src) if "Kc(" in src else src) for n, src in CAPTURE]
 
